@@ -49,7 +49,7 @@ ASSUMPTIONS = ["xv.canon captures exactly the equivalence of the property statem
                "the generator only builds IR that Operation.verify accepts (checked per case; rejected ones are counted and skipped)"]
 JOB_TIMEOUT = {"quick": 900, "thorough": 7200}
 
-HINT_CLASSES = ["non-ascii", "suffix-retained", "block-default-name", "block-hint"]
+HINT_CLASSES = ["non-ascii", "stripped-to-empty", "suffix-retained", "block-default-name", "block-hint", "non-ascii-attr-key"]
 
 
 # --------------------------------------------------------------------------- helpers
@@ -107,11 +107,6 @@ def _float_hex_model(a_attr, b_attr) -> bool:
     return changed > 0
 
 
-def _find_attr(m, opname, idx_key, comp):
-    """The attribute object of the first op named `opname` holding key `idx_key` - used by classifiers only."""
-    return None
-
-
 def diff_key(form: str, d: dict, ma=None, mb=None) -> str:
     """Mechanism key of a canonical difference."""
     comp = d.get("component")
@@ -150,46 +145,101 @@ def _msg_class(msg: str) -> str:
     return re.sub(r"\s+", " ", m).strip()[:60]
 
 
-# --------------------------------------------------------------------------- hint-class attribution
-def hint_attribution(m, ctx, symptoms: list[str], generic=True):
-    """For each symptom name: the minimal set of hint classes whose neutralisation removes it (None = the symptom
-    does not depend on name hints). Hints are restored afterwards."""
-    from xv.c04_gen import hint_classes, named_objects, sanitise_hint
-    from xv.c04_rt import roundtrip
+# --------------------------------------------------------------------------- experimental attribution
+def _sig(symptoms):
+    """Name-independent signature of a symptom list (never contains printed names or positions)."""
+    out = []
+    for s in symptoms:
+        if s["symptom"] == "canon-differs":
+            out.append(("canon-differs", s.get("op"), s.get("component"), s.get("key"), s.get("detail") if "key" in s else None))
+        else:
+            out.append((s["symptom"], s.get("exc"), s.get("site"), _msg_class(s.get("msg", ""))))
+    return sorted(out, key=repr)
+
+
+def _classes_present(m):
+    from xv.c04_gen import hint_classes, named_objects
     objs = named_objects(m)
-    saved = [(o, o._name) for o, _ in objs]  # strong refs + raw stored hints
-    present = [c for c in HINT_CLASSES if any(c in hint_classes(o._name, isb) for o, isb in objs)]
-    result = {s: None for s in symptoms}
-    if not present:
-        return result, present
+    present = [c for c in HINT_CLASSES[:-1] if any(c in hint_classes(o._name, isb) for o, isb in objs)]
+    if any(not k.isascii() for op in m.walk() for k in list(op.attributes) + list(op.properties)):
+        present.append("non-ascii-attr-key")
+    return present, objs
 
-    def run_with(classes):
-        for o, isb in objs:
-            raw = o._name
-            for c in classes:
-                if raw and c in hint_classes(raw, isb):
-                    raw = sanitise_hint(raw, c, isb)
+
+def _neutralise(m, objs, classes):
+    """Apply the neutralisers of `classes` in place; returns an undo function."""
+    from xv.c04_gen import hint_classes, sanitise_hint
+    saved_names = [(o, o._name) for o, _ in objs]
+    saved_dicts = []
+    for o, isb in objs:
+        raw = o._name
+        for c in classes:
+            if c != "non-ascii-attr-key" and raw is not None and c in hint_classes(raw, isb):
+                raw = sanitise_hint(raw, c, isb)
+        o._name = raw
+    if "non-ascii-attr-key" in classes:
+        for op in m.walk():
+            for d in (op.attributes, op.properties):
+                if any(not k.isascii() for k in d):
+                    saved_dicts.append((d, dict(d)))
+                    items = [(k if k.isascii() else "xv_" + k.encode("ascii", "backslashreplace").decode().replace("\\", "_"), v)
+                             for k, v in d.items()]
+                    d.clear()
+                    d.update(items)
+
+    def undo():
+        for o, raw in saved_names:
             o._name = raw
-        try:
-            r = roundtrip(m, ctx, generic)
-        finally:
-            for o, raw in saved:
-                o._name = raw
-        return {s["symptom"] for s in r["symptoms"]}
+        for d, old in saved_dicts:
+            d.clear()
+            d.update(old)
+    return undo
 
-    pending = set(symptoms)
-    for size in range(1, len(present) + 1):
-        if not pending:
-            break
-        for combo in itertools.combinations(present, size):
-            if not pending:
+
+def attribute_symptoms(m, ctx, first, generic=True, runner=None):
+    """Peel the causes of a failing case one class at a time.
+
+    Starting from the observed symptom list `first`, look for the smallest set of still-active classes whose
+    neutralisation CHANGES the name-independent symptom signature; the symptoms that disappeared are attributed to
+    those classes; the neutralisation is kept and the search repeats on what remains.  Returns
+    ([(symptom dict, [classes] or None)], classes present, number of extra round trips)."""
+    from xv.c04_rt import roundtrip
+    run = runner or (lambda: roundtrip(m, ctx, generic)["symptoms"])
+    present, objs = _classes_present(m)
+    out = []
+    active: list[str] = []
+    current = first
+    extra = 0
+    while current:
+        remaining = [c for c in present if c not in active]
+        progressed = False
+        cur_sig = _sig(current)
+        for size in range(1, len(remaining) + 1):
+            for combo in itertools.combinations(remaining, size):
+                undo = _neutralise(m, objs, active + list(combo))
+                try:
+                    nxt = run()
+                finally:
+                    undo()
+                extra += 1
+                nxt_sig = _sig(nxt)
+                if nxt_sig != cur_sig:
+                    gone = [s for s in current if _sig([s])[0] not in nxt_sig]
+                    if not gone:  # signature changed only by gaining symptoms: not a cure, ignore
+                        continue
+                    for s in gone:
+                        out.append((s, list(combo)))
+                    active += list(combo)
+                    current = nxt
+                    progressed = True
+                    break
+            if progressed:
                 break
-            rem = run_with(combo)
-            for s in list(pending):
-                if s not in rem:
-                    result[s] = list(combo)
-                    pending.discard(s)
-    return result, present
+        if not progressed:
+            for s in current:
+                out.append((s, None))
+            break
+    return out, present, extra
 
 
 # --------------------------------------------------------------------------- plan
@@ -282,18 +332,20 @@ def work(job):
             if origin == "generated" and classes:
                 bump("generated_ok_despite_risky_hint_class")
             return r
-        names = sorted({s["symptom"] for s in r["symptoms"]})
-        attrib, present = hint_attribution(m, ctx, names)
-        for s in r["symptoms"]:
+        attributed, present, extra = attribute_symptoms(m, ctx, r["symptoms"])
+        bump("attribution_extra_roundtrips", extra)
+        for s, classes_for in attributed:
             sym = s["symptom"]
             bump(f"symptom:{sym}")
-            classes_for = attrib.get(sym)
             wit = {"case": case_id, "origin": origin, "symptom": {k: v for k, v in s.items()},
                    "printed_generic": (r["t1"] or "")[:3000], "replay_job": replay_job}
             if classes_for:
-                wit["hints"] = sorted({o._name for o, isb in objs if o._name and any(c in hint_classes(o._name, isb) for c in classes_for)})[:12]
+                wit["neutralised"] = classes_for
+                wit["hints"] = sorted({o._name for o, isb in objs if o._name is not None and
+                                       any(c in hint_classes(o._name, isb) for c in classes_for)})[:12]
                 for c in classes_for:
-                    viol(f"hint:{c}:{sym}", f"{sym} disappears when {c} name hints are neutralised ({case_id})", wit)
+                    pre = "" if c == "non-ascii-attr-key" else "hint:"
+                    viol(f"{pre}{c}:{sym}", f"{sym} disappears when {c} is neutralised ({case_id})", wit)
             else:
                 key = symptom_key("generic", s, m, r["m2"])
                 viol(key, f"{sym} on {case_id}: " + str({k: v for k, v in s.items() if k != 'symptom'})[:300], wit)
